@@ -211,6 +211,8 @@ def describe(w: Any) -> None:
         print("   out:", bytes(rec.out)[:300])
         if rec.client is not None:
             print("   client view:", repr(client_view(rec))[:600])
+            if rec.client.h2 is not None and rec.client.h2.skipped:
+                print("   client commands refused by the h2 library:", rec.client.h2.skipped)
     print("access:", [(a[0], a[2], a[3], a[4]) for a in w.access])
     print("log:", w.logrec)
     print("exc contexts:", [(c.get("message"), repr(c.get("exception"))) for c in w.exc_contexts])
